@@ -1,10 +1,24 @@
 (* C11 — property theorems only.  Each is closed by [exact] of a lemma from the
    Proofs_* files and followed by Print Assumptions. *)
 From Coq Require Import List ZArith Bool.
-From Verif Require Import lib.Wire gen.Consts_c11 c11.Model c11.Spec c11.Proofs c11.Proofs_Cnt c11.Proofs_Caps c11.Proofs_Life.
+From Verif Require Import lib.Wire gen.Consts_c11 c11.Model c11.Spec c11.Proofs c11.Proofs_Cnt c11.Proofs_Caps c11.Proofs_Life
+  c11.Proofs_Circ c11.Proofs_Rsv c11.Proofs_Mon.
 From Verif Require c08.SymCrypto c08.Model c08.Proofs c08.Proofs_Env c11.ClientModel c11.SpecClient c11.Proofs_Client.
 Import ListNotations.
 Local Open Scope Z_scope.
+
+(* 0. THE headline: the very monitor that judges the implementation's traces accepts every
+   trace of the model — for every configuration with 0 <= TTL, caps, Limit.Data and
+   0 < Limit.Duration, and every history whose operations name peers among 1..n and whose
+   (virtual) clock is monotone with every operation lasting >= 1 ms (ops_ok; the same
+   condition is checked on every recorded event by conform_case: ev_okb).  Proof: coupling
+   invariant between the monitor's own bookkeeping (reservations with grant address,
+   circuits with opening window, connectivity, clock) and the model state, using the
+   invariants of theorems 2-5 and 7. *)
+Theorem c11_monitor_accepts_model : forall c ops, wf c -> ops_ok c 0 ops ->
+  monitor c (model_trace c init_st ops) = [].
+Proof. exact monitor_accepts_model_l. Qed.
+Print Assumptions c11_monitor_accepts_model.
 
 (* 1. the relay reports OK for a CONNECT only if the destination holds a reservation,
    the source did not reach the relay through another relay, the ACL permits it and
@@ -99,20 +113,15 @@ Proof.
 Qed.
 Print Assumptions c11_no_reservation_over_relay.
 
-(* 7. limited relay: when time has moved to t no circuit whose deadline (opening time +
-   Limit.Duration) has passed is open; LimitReader lets at most the remaining allowance
-   through.  (The per-circuit byte invariant over whole histories is checked by the
-   correspondence only: _partial.) *)
-Theorem c11_limit_duration_partial : forall c ops t ci,
+(* 7. limited relay, every history: at most Limit.Data bytes forwarded in each direction, and a
+   circuit that is still open is younger than Limit.Duration (its deadline, opening time +
+   Limit.Duration, is in the future) *)
+Theorem c11_limits : forall c ops, wf c ->
   let s := run c init_st ops in
-  In ci (s_circs (advance_to c s t)) -> ci_open ci = true -> 0 <= ci_dl ci ->
-  s_now (advance_to c s t) < ci_dl ci.
-Proof. intros c ops t ci s. apply advance_deadline_l. apply run_cinv, init_cinv. Qed.
-Print Assumptions c11_limit_duration_partial.
-
-Theorem c11_limit_bytes_partial : forall L f n, f <= L -> f + Z.min n (L - f) <= L.
-Proof. exact limit_reader_l. Qed.
-Print Assumptions c11_limit_bytes_partial.
+  c_limited c = true -> forall ci, In ci (s_circs s) ->
+  ci_fab ci <= c_limdata c /\ ci_fba ci <= c_limdata c /\ (ci_open ci = true -> s_now s < ci_dl ci).
+Proof. exact limits_l. Qed.
+Print Assumptions c11_limits.
 
 (* 8. the answer to a granted RESERVE names the relay as signer and issuer and exactly
    the reserving peer (signature and envelope are checked on the real code by the
